@@ -167,6 +167,7 @@ class InterpCore:
         self.kinds: Dict[int, str] = {}
         self.notkinds: Dict[int, List[str]] = {}
         self.elem_notkinds: Dict[str, List[str]] = {}
+        self.aliases: Dict[int, V] = {}
         self.stack: List[Frame] = []
         self.handlers: List[List[Any]] = []
         self.steps = 0
@@ -211,6 +212,7 @@ class InterpCore:
         self.kinds = {}
         self.notkinds = {}
         self.elem_notkinds = {}
+        self.aliases = {}
         self.stack = []
         self.handlers = []
         self.steps = 0
@@ -299,6 +301,13 @@ class InterpCore:
         if isinstance(v, Sym) and v.kind in ("Schema", "function", "PathHolder", "ValidationResult"):
             return True
         return None
+
+    def resolve(self, v: V) -> V:
+        """A symbolic key that a membership test unified with a token of a concrete table."""
+        uid = getattr(v, "uid", None)
+        if uid is not None and uid in self.aliases:
+            return self.aliases[uid]
+        return v
 
     def kind_of(self, v: V) -> Optional[str]:
         uid = getattr(v, "uid", None)
@@ -551,7 +560,7 @@ class InterpCore:
                 recv.props = v
         elif isinstance(target, ast.Subscript):
             recv = self.eval(target.value, fr)
-            idx = self.eval(target.slice, fr)
+            idx = self.resolve(self.eval(target.slice, fr))
             self.emit("write", st, how="setitem", target=recv, index=idx, value=v, aug=aug)
             if isinstance(recv, DictV):
                 recv.store(idx, v)
